@@ -12,7 +12,7 @@ Separate Extraction
   Bracket.conv Bracket.lua_nl Bracket.luau_nl Bracket.no_lone_cr
   Number.number_rewrite Number.numval
   Expr.parse Expr.tokens Expr.can Expr.Sm Expr.no_double_minus Expr.size
-  Parens.inR Parens.fmt_single Parens.fmt_hang Parens.check
+  Parens.inR Parens.fmt_single Parens.fmt_hang Parens.check Parens.strip
   DiffJson.mismatches DiffJson.mismatches_at DiffJson.annotate DiffJson.apply_json DiffJson.olds DiffJson.news
   DiffUnified.apply DiffUnified.merge DiffUnified.view DiffUnified.olds DiffUnified.news
   Sched.find_bad_schedule Sched.run Sched.pending Sched.threads_of Sched.mono_prog
@@ -22,5 +22,5 @@ Separate Extraction
   Lex.lex Census.census Census.census_eq Census.first_missing Census.erase Census.ws_check Census.str_den
   Trivia.lead Trivia.trail Trivia.fmt_comment
   CallForm.call_form CallForm.form_ok CallForm.space_definition CallForm.space_call
-  Fmt0.format0 Fmt0.nprog Fmt0.pprog.
+  Fmt0.format0 Fmt0.nprog Fmt0.pprog Fmt0.norm0 Fmt0.guard_free.
 Cd "../../coq".
